@@ -359,6 +359,8 @@ def check_flags(c):
                 c.violation('marker-wrong', {'kind': 'impl-vs-spec', 'op': 'eval', 'expr': t + ' to fraction', 'impl': got,
                                              'uses_approximate_operand': ua, 'in_known_class': in_known_class})
                 continue
+        if in_known_class:
+            continue        # the mirror is deliberately bug-compatible there: not consulted (DESIGN 5)
         if not (model_ok and F.q_of(pm[1]) == v and (pm[2] == 1) == (not marked)):
             c.violation('flag-model-differs', {'kind': 'impl-vs-model', 'op': 'flag', 'expr': t, 'impl': got, 'model': model[i]}, no_input=True)
     # L1: Value::add directly
